@@ -167,6 +167,46 @@ func (t *jtracer) hook(point string, a, b any) {
 	}
 }
 
+// nameFor: the publication a message object currently stands for (a reused object is published under a new name), else by payload
+func (t *jtracer) nameFor(m *sse.Message) string {
+	t.mu.Lock()
+	n, ok := t.msgs[m]
+	t.mu.Unlock()
+	if ok {
+		return n
+	}
+	return nameOf(m)
+}
+
+// waitIdleAfter waits until Joe has finished the hand-out of publication p (his next loop.select, or his exit) - or never took it
+func (t *jtracer) waitIdleAfter(p string) {
+	t.mu.Lock()
+	defer t.mu.Unlock()
+	for {
+		taken, idle, refused := false, false, false
+		for _, e := range t.evs {
+			switch e["e"] {
+			case "loop.msg":
+				if e["p"] == p {
+					taken = true
+				}
+			case "pub.closed":
+				if e["p"] == p {
+					refused = true
+				}
+			case "loop.select", "loop.exit":
+				if taken {
+					idle = true
+				}
+			}
+		}
+		if idle || refused {
+			return
+		}
+		t.cond.Wait()
+	}
+}
+
 // nameOf recovers the driver's name of a message from its payload (a clone with an automatic ID has another address).
 func nameOf(m *sse.Message) string {
 	s := m.String()
@@ -198,7 +238,7 @@ type jw struct {
 func (w *jw) Send(m *sse.Message) error {
 	w.nSend++
 	fail := w.failSend == w.nSend
-	w.t.log(jev{"e": "send", "s": w.id, "p": nameOf(m), "id": m.ID.String(), "idset": m.ID.IsSet(), "ok": !fail})
+	w.t.log(jev{"e": "send", "s": w.id, "p": w.t.nameFor(m), "id": m.ID.String(), "idset": m.ID.IsSet(), "ok": !fail})
 	if w.gate != nil && w.nSend == 1 {
 		close(w.entered)
 		<-w.gate
@@ -243,7 +283,7 @@ type recRep struct {
 
 func (r *recRep) Put(m *sse.Message, tp []string) (*sse.Message, error) {
 	r.nPut++
-	name := nameOf(m)
+	name := r.t.nameFor(m)
 	if r.nPut == r.putPanic {
 		r.t.log(jev{"e": "put", "p": name, "v": "panic", "id": "", "idset": false})
 		if r.errWithMsg {
@@ -380,6 +420,15 @@ func runScenario(seed int64, focus string) (evs []jev, blocked bool, dump string
 		t.mu.Unlock()
 		return m
 	}
+	// pubObj publishes an existing Message object again under a new name (the same pointer, unchanged content: its ID is wantID)
+	pubObj := func(m *sse.Message, name string, tp []string, after, wantID string) {
+		t.mu.Lock()
+		t.msgs[m] = name
+		t.mu.Unlock()
+		t.log(jev{"e": "call.pub", "p": name, "t": tp, "after": after, "wantid": wantID})
+		err := j.Publish(m, tp)
+		t.log(jev{"e": "ret.pub", "p": name, "v": jerrClass(err)})
+	}
 	pub := func(name string, tp []string, after string) {
 		m := mk(name)
 		t.log(jev{"e": "call.pub", "p": name, "t": tp, "after": after})
@@ -404,8 +453,19 @@ func runScenario(seed int64, focus string) (evs []jev, blocked bool, dump string
 		// shutdown before anything else has initialised the provider
 		down("k9", context.WithValue(context.Background(), ctxKey{}, "k9"))
 	}
+	// many topics: more distinct topic names than a machine word has bits pass through one provider before the subscribers come
+	many := focus == "mix" && seed%17 == 5
+	manyTopics := func(a, b int) (tp []string) {
+		for i := a; i < b; i++ {
+			tp = append(tp, "m"+strconv.Itoa(i))
+		}
+		return
+	}
 	// pre-history, so that subscribers can present IDs of buffered events
 	npre := rng.Intn(5)
+	if many {
+		npre = 2
+	}
 	var hist []string
 	for i := 0; i < npre; i++ {
 		name := "h" + strconv.Itoa(i)
@@ -414,7 +474,11 @@ func runScenario(seed int64, focus string) (evs []jev, blocked bool, dump string
 			prev = hist[i-1]
 		}
 		hist = append(hist, name)
-		pub(name, pubTopicSets[rng.Intn(3)], prev)
+		tp := pubTopicSets[rng.Intn(3)]
+		if many {
+			tp = manyTopics(i*40, i*40+40-i*10) // m0..m39, then m40..m69
+		}
+		pub(name, tp, prev)
 		_ = i
 	}
 	nsub := 1 + rng.Intn(3)
@@ -440,6 +504,9 @@ func runScenario(seed int64, focus string) (evs []jev, blocked bool, dump string
 		t.subs[w] = id
 		t.mu.Unlock()
 		tp := topicSets[rng.Intn(len(topicSets))]
+		if many {
+			tp = [][]string{{"m64"}, {"m65", "m3"}, {"m1"}}[i%3]
+		}
 		lid, lidSet, lidName := "", false, ""
 		if len(hist) > 0 && rng.Intn(3) != 0 {
 			lidSet = true
@@ -486,12 +553,16 @@ func runScenario(seed int64, focus string) (evs []jev, blocked bool, dump string
 		}
 	}
 	npub := 1 + rng.Intn(3)
+	reuse := repKind == "none" && seed%3 == 0 // publishers that publish one Message object several times
 	for p := 0; p < npub; p++ {
 		p := p
 		nk := 1 + rng.Intn(3)
 		sets := make([][]string, nk)
 		for k := range sets {
 			sets[k] = pubTopicSets[rng.Intn(len(pubTopicSets))]
+			if many {
+				sets[k] = [][]string{{"m64"}, {"m65"}, {"m1", "m64"}}[rng.Intn(3)]
+			}
 		}
 		d := time.Duration(rng.Intn(150)) * time.Microsecond
 		wg.Add(1)
@@ -499,9 +570,20 @@ func runScenario(seed int64, focus string) (evs []jev, blocked bool, dump string
 			defer wg.Done()
 			time.Sleep(d)
 			prev := "<none>"
+			var shared *sse.Message
 			for k := 0; k < nk; k++ {
 				name := "p" + strconv.Itoa(p) + "k" + strconv.Itoa(k)
-				pub(name, sets[k], prev)
+				switch {
+				case reuse && k == 0:
+					shared = mk(name)
+					pubObj(shared, name, sets[k], prev, name)
+				case reuse:
+					// the same Message object, untouched, published again once Joe is done with the previous publication
+					t.waitIdleAfter(prev)
+					pubObj(shared, name, sets[k], prev, "p"+strconv.Itoa(p)+"k0")
+				default:
+					pub(name, sets[k], prev)
+				}
 				prev = name
 			}
 		}()
